@@ -26,6 +26,7 @@ WORKLOADS = {
     "W4": dict(ops="D1,D2,I,W,D3,D4,D6,I,W", target=0),            # reorganise onto a branch invalid at its 3rd block
     "W5": dict(ops="D1,D2,D7,C,D3,I,W", target=0),                 # clean restart in the middle
     "W6": dict(ops="D3,D4,I,H,W,D1,D2,D7,I,D8,I,H,W", target=600),        # reorganise the other way, hurry-up
+    "W7": dict(ops="D1,D2,I,W,D3,D4,D6,D7,C", target=0),           # an invalidated block still queued, blocks queued behind it, clean restart
 }
 SKIP_POINTS = {"save_iter"}      # one per UTXO record: sampled, not enumerated
 # hook points TraceChainStore knows (other modules may add points of their own to the same files: not its business)
@@ -100,7 +101,7 @@ def run(ctx):
         j = last_json(p.stdout)
         if p.returncode != 0 or not j or not j.get("ok"):
             what = (j or {}).get("what") or (j or {}).get("problems") or p.stderr[-500:]
-            if j and "clean restart" in str(what):
+            if j and ("clean restart" in str(what) or "after clean restart" in str(what)):
                 ctx.violation("C07:clean-restart:%s" % name, {"workload": wl, "what": what}, str(what))
                 continue
             raise Infra("workload %s failed uncrashed: %s" % (name, what))
@@ -209,8 +210,12 @@ def run(ctx):
 
 def judge(ctx, name, wl, where, rep):
     for kind, what in zip(rep.get("kind", []), rep.get("problems", [])):
-        cls = re.sub(r"[0-9a-f]{16,}", "<hash>", what)
-        cls = re.sub(r"\d+", "N", cls)[:70]
+        if any(m in what for m in ("unknown path to block", "reached the starting node height", "end block is not higher")):
+            cls = "snapshot-off-branch"      # the three ways BlockTreeNode.FindPathTo panics when asked for a path that does not exist
+        else:
+            cls = what.split("panics: ")[-1]
+            cls = re.sub(r"[0-9a-f]{16,}", "<hash>", cls)
+            cls = re.sub(r"\d+", "N", cls)[:60]
         sig = "C07:%s:%s:%s" % (kind, name, cls)
         ctx.violation(sig, {"workload": name, "ops": wl["ops"], "target": wl["target"], "crash_at": where, "report": rep}, "%s crash at %s: %s" % (name, where, what))
 
